@@ -1805,6 +1805,23 @@ class SpaceUpdater(SharedSpaceOperations):
             if conflict:
                 raise NameError("name conflict: %s" % conflict)
 
+            # Check that relative references can be rebound, before
+            # re-deriving the members, which clears their values.
+            seen = set()
+            for sname in mro:
+                for name, ref in self._graph.to_space(
+                        sname).own_refs.items():
+                    if not ref.is_defined() or name in seen:
+                        continue
+                    seen.add(name)
+                    if (sname != desc and ref.refmode == "relative"
+                            and ref.has_interface()
+                            and not self._graph.get_relative(
+                                desc, sname, ref.interface._impl.idstr)):
+                        raise ValueError(
+                            "Relative reference %s out of scope" %
+                            ref.get_fullname())
+
         self._instructions.append(
             Instruction(self._update_derived_space, (node,)))
         for _,  v in nx.edge_dfs(self._graph, node):
